@@ -16,6 +16,7 @@ import (
 	"github.com/cockroachdb/errors/errorspb"
 	"github.com/cockroachdb/errors/extgrpc"
 	errgrpc "github.com/cockroachdb/errors/grpc"
+	"github.com/cockroachdb/logtags"
 	gogostatus "github.com/gogo/status"
 	"google.golang.org/grpc/codes"
 	grpcstatus "google.golang.org/grpc/status"
@@ -116,6 +117,10 @@ func (c20) Run(t *tape.Tape, tier Tier) *Result {
 			res.Stats.Faults["context-ends-after-reply"]++
 		}
 	}
+	tagged := make([]bool, nrpc)
+	for i := range tagged {
+		tagged[i] = t.Bool(1, 3)
+	}
 	type rpcResult struct {
 		err, errNo error
 	}
@@ -134,6 +139,11 @@ func (c20) Run(t *tape.Tape, tier Tier) *Result {
 				ctx, cancel := context.WithTimeout(context.Background(), 20*time.Second)
 				req := &errgrpc.EchoRequest{Text: hs[assign[i]].id}
 				cctx, ccancel := context.WithCancel(ctx)
+				if tagged[i] {
+					// the caller's context carries log tags (a relay calling
+					// downstream with its request context)
+					cctx = logtags.AddTag(cctx, "caller", "TKUctxQ")
+				}
 				if endCtx[i] {
 					cctx = context.WithValue(cctx, grpcsim.EndContextAfterReply, func() { ccancel() })
 				}
